@@ -217,6 +217,40 @@ def inplace_presence(chk, rng, b, ci, inp0):
             chk.fail("decode-or-reference-raises", inp, repr(e))
 
 
+def oneof_wire_orders(chk, rng, b, ci, inp0):
+    """presence after decoding bytes that betterproto itself would never write: the members of one oneof occurring several
+    times in any order (X, Y, X …; default-valued occurrences included) — legal on the wire, the LAST occurrence selects.
+    Compared with the reference's HasField / WhichOneof on the same bytes."""
+    md, cls = b.schema[ci], b.classes[ci]
+    for g in range(md.ngroups):
+        members = [f for f in md.fields if f.group == g and not (f.ty == "message" and not f.wraps and f.kind.startswith("u"))]
+        if len(members) < 2:
+            continue
+        for _ in range(3):
+            seq = [rng.choice(members) for _ in range(rng.choice([2, 3, 3, 4]))]
+            if len({f.name for f in seq}) < 2:
+                continue
+            try:
+                parts = []
+                for f in seq:
+                    v = default_of(f) if rng.random() < 0.4 else bpgen.gen_scalar(rng, f.wraps or f.ty) if f.ty != "message" or f.wraps else bpgen.gen_kind(rng, b.schema, f.kind, 1)
+                    parts.append(bytes(cls(**{f.name: bpgen.to_py(v, b.classes, f.ty)})))
+                data = b"".join(parts)
+                back = cls().parse(data)
+                got = bp_presence(back, md)
+                want = ref_presence(b.refs[ci], data, md)
+            except Exception as e:
+                chk.count("wire_order_skipped_" + type(e).__name__)
+                continue
+            chk.count("oneof_wire_orders")
+            inp = dict(inp0, wire_order=[f.name for f in seq], bytes=data.hex())
+            chk.case(b.schema_line() + "|order|" + data.hex(), True, {"oneof_members_on_the_wire": [f.name for f in seq], "bytes": data.hex()})
+            for name in want:
+                if name in got and got[name] != want[name]:
+                    chk.fail("presence-differs-from-reference", dict(inp, checked=name),
+                             "betterproto=%s reference=%s bytes=%s" % (got[name], want[name], data.hex()))
+
+
 def run(chk, drv):
     quick = chk.tier == "quick"
     rng = chk.rng
@@ -253,6 +287,7 @@ def run(chk, drv):
             chk.case(b.schema_line() + "fresh%d" % ci, False)
             reads_are_not_writes(chk, rng, b, ci, inp0)
             inplace_presence(chk, rng, b, ci, inp0)
+            oneof_wire_orders(chk, rng, b, ci, inp0)
             # ---- the matrix
             lines, wants = [], []
             for i, f in enumerate(md.fields):
